@@ -297,7 +297,7 @@ HARNESSES = {
         params=dict(quick=dict(N=3, NE=2), thorough=dict(N=3, NE=3)), witnesses=["dag-ok", "malformed", "cyclic", "dangling"],
         bound=dict(quick="1..3 nodes, <=2 edges, every edge_start and edge target any u16, one post-read flag per node, both passes over a shared cache; all runner outcomes succeed",
                    thorough="1..3 nodes, <=3 edges"),
-        timeout=dict(quick=900, thorough=3300), max_paths=dict(quick=400000, thorough=3000000),
+        timeout=dict(quick=900, thorough=3300), max_paths=dict(quick=400000, thorough=3000000), heavy=True,
         replay=dict(kind="check_graph")),
     "flat_level": dict(props=["C01", "C07"], crates=CR, fn=flat_level, params=dict(quick=dict(N=3), thorough=dict(N=4)),
         witnesses=["ok", "ok-data", "unsatisfied", "failing"],
@@ -307,6 +307,6 @@ HARNESSES = {
         params=dict(quick=dict(N=2, NE=2), thorough=dict(N=3, NE=2)), witnesses=["dag-ok", "dag-fail"],
         bound=dict(quick="1..2 nodes, <=2 edges (any u16), one node may fail / be unsatisfied / output data, both values of collect_all_failures",
                    thorough="1..3 nodes, <=2 edges"),
-        timeout=dict(quick=900, thorough=3300), max_paths=dict(quick=400000, thorough=3000000),
+        timeout=dict(quick=900, thorough=3300), max_paths=dict(quick=400000, thorough=3000000), heavy=True,
         replay=dict(kind="check_graph")),
 }
